@@ -237,7 +237,7 @@ def run(ctx):
         items = []
         for doc in ctx.sample([d for d in res.printed if "kind" in d], 120000):
             n += 1
-            items.append((n, doc, ("AC", "YW", "xy")[n % 3] if two else "ACD"))
+            items.append((n, doc, ("AC", "YW", "xy", "\u00e9\u03bb", "\u4eac\U0001F9EC")[n % 5] if two else ("ACD", "\u00f1\u20ac\u6771")[n % 2]))
         res.printed = []
         ctx.parallel(items, _replay_item, chunk=1000)
     ctx.exhaustive = True
